@@ -186,7 +186,8 @@ func runScenarioW(t fataler, full *util.MemoryNodeDB, root []byte, model map[str
 	}
 
 	// repair
-	var donor *util.MemoryNodeDB
+	var donor util.NodeDB
+	var donorMem *util.MemoryNodeDB
 	if strings.HasPrefix(donorMode, "exact") {
 		keep := map[string]bool{}
 		_ = full.Iterate(context.Background(), func(ctx context.Context, key util.Key, node util.Node) error {
@@ -195,9 +196,39 @@ func runScenarioW(t fataler, full *util.MemoryNodeDB, root []byte, model map[str
 			}
 			return nil
 		})
-		donor = copyDB(full, keep)
+		donorMem = copyDB(full, keep)
 	} else {
-		donor = copyDB(full, nil)
+		donorMem = copyDB(full, nil)
+	}
+	donor = donorMem
+	// the donor is a plain memory store, or a level whose nodes are spread over its two layers, or a level over a
+	// persistent store that holds all of them
+	donorKind := []string{"memory", "memory", "level-mem", "level-persistent"}[(len(removed)+int(version))%4]
+	switch donorKind {
+	case "level-mem":
+		cur, prev := util.NewMemoryNodeDB(), util.NewMemoryNodeDB()
+		i := 0
+		_ = donorMem.Iterate(context.Background(), func(ctx context.Context, key util.Key, node util.Node) error {
+			if i%2 == 0 {
+				_ = cur.PutNode(key, node.CloneNode())
+			} else {
+				_ = prev.PutNode(key, node.CloneNode())
+			}
+			i++
+			return nil
+		})
+		donor = util.NewLevelNodeDB(cur, prev, false)
+	case "level-persistent":
+		p, dir := mptkit.NewPNodeDB()
+		defer mptkit.DropDir(dir)
+		_ = donorMem.Iterate(context.Background(), func(ctx context.Context, key util.Key, node util.Node) error {
+			return p.PutNode(key, node.CloneNode())
+		})
+		donor = util.NewLevelNodeDB(util.NewMemoryNodeDB(), p, false)
+	}
+	{
+		d0 := desc
+		desc = func() string { return d0() + " [donor store: " + donorKind + "]" }
 	}
 	snap := map[string][]byte{}
 	_ = donor.Iterate(context.Background(), func(ctx context.Context, key util.Key, node util.Node) error {
